@@ -159,7 +159,8 @@ func ExpressionPrecedence(expr ExpressionNode) uint8 {
 		*IfExpressionNode, *UnlessExpressionNode, *WhileExpressionNode,
 		*UntilExpressionNode, *ForInExpressionNode, *NumericForExpressionNode,
 		*TypeExpressionNode, *ClosureLiteralNode, *ConstantDeclarationNode,
-		*DoubleSplatExpressionNode, *SplatExpressionNode, *QuoteExpressionNode:
+		*DoubleSplatExpressionNode, *SplatExpressionNode, *QuoteExpressionNode,
+		*AwaitExpressionNode:
 		return 20
 	case *AssignmentExpressionNode:
 		return 30
@@ -211,7 +212,7 @@ func ExpressionPrecedence(expr ExpressionNode) uint8 {
 	case *GenericReceiverlessMethodCallNode,
 		*ReceiverlessMethodCallNode, *NilSafeSubscriptExpressionNode,
 		*SubscriptExpressionNode, *CallNode, *AttributeAccessNode,
-		*GenericMethodCallNode, *MethodCallNode, *AwaitExpressionNode,
+		*GenericMethodCallNode, *MethodCallNode,
 		*MacroCallNode, *ReceiverlessMacroCallNode:
 		return 210
 	case *ConstructorCallNode, *GenericConstructorCallNode:
